@@ -323,8 +323,8 @@ func c07Provenance(c *Ctx, rb string) {
 			src, ix := resultOf(retVal(r, 0))
 			c.Check(src == ikc && ix == 0, rb, fmt.Sprintf("internal/signinit.Init returns InitKey's certificate#%d", i+1), p.Pos(r.Pos()), "", "Init returns a certificate other than the one InitKey loaded")
 		}
-		if len(in.Params) >= 4 {
-			c.Check(ikc.Call.Args[2] == in.Params[3] && ikc.Call.Args[1] == in.Params[2], rb, "internal/signinit.Init passes token and key name through", p.Pos(ikc.Pos()), "", "Init calls InitKey with a different token or key name than it was given")
+		if len(ikc.Call.Args) >= 3 {
+			c.Check(inputOfType(in, ikc.Call.Args[2], "string") && inputOfType(in, ikc.Call.Args[1], "token.Token"), rb, "internal/signinit.Init passes token and key name through", p.Pos(ikc.Pos()), "", "Init calls InitKey with a different token or key name than it was given")
 		}
 	} else {
 		c.Fail(rb, "internal/signinit.Init shape", p.Pos(in.Pos()), fmt.Sprintf("%d InitKey calls, expected 1", len(iks)))
